@@ -18,4 +18,22 @@ CHECKS = {
               "nesting 9998..10002) are executed first and their logged acceptance is validated by TLC against the same automaton."),
         note="Bounded-exhaustive plus sampled; trusted: TLC, CommunityModules, the byte<->int projection. Unmarshal-into-any is compared only where it is a pure acceptor.",
         design_ref="5 (C01), 4.1"),
+    "C05": dict(
+        technique="TLA+ Decoder state machine over the token table (reader schedule absent from the state); TLC-enumerated call programs replayed under all read compositions; TLC trace validation of faulted and long random executions",
+        text=("Decoder.tla makes every ReadToken/ReadValue/SkipValue/PeekKind/StackPointer call a function of the input's token table and the decoder state only. "
+              "TLC checks on all call programs over 25 small documents that the model's offsets/stack equal an independent parse of the consumed bytes, that token, value "
+              "and skip paths agree, and that failing calls have no effect; it emits every program with per-call predictions. The harness executes each under every "
+              "composition of the input into reads (<= 9 bytes; single cuts, 1-byte, empty reads, data+EOF, bytes.Buffer otherwise) and compares call by call. Executions with "
+              "injected transient read faults and retries, and long random programs over inputs sized around the 64..4096 buffer thresholds, are logged and validated by TLC "
+              "(Trace_Decoder), including unread-buffer accounting and value-bytes identity."),
+        note="Bounded-exhaustive programs/schedules plus sampled long runs; PeekKind at the point where input ends or dies is left open; UnmarshalRead/UnmarshalDecode equivalence is decided in C03's check.",
+        design_ref="5 (C05), 4.2"),
+    "C16": dict(
+        technique="TLC-checked invariant 'model positions == independent parse'; replay of TLC-enumerated programs comparing offset/depth/index/pointer after every call; relational error-position predicates validated by TLC on logged errors; RFC 6901 pointer laws model-checked and replayed",
+        text=("After every decoder call the harness compares InputOffset, StackDepth, StackIndex and (scheduled) StackPointer with TLC's prediction; TLC proves on the model that "
+              "these predictions equal the stack of the byte automaton run on the consumed prefix. For every rejected call the logged SyntacticError offset and pointer are checked by "
+              "TLC against OffsetOK/PointerOK (viable prefix, offending token, innermost value or its container, duplicated member). Pointer.tla's laws are checked exhaustively over "
+              "token lists on {~,/,0,1,a} and replayed on jsontext.Pointer."),
+        note="Relational error predicates admit every position the property's wording admits; encoder positions are compared in C06's check; SemanticError positions in C03/C14 checks when built.",
+        design_ref="5 (C16), 4.2"),
 }
